@@ -228,10 +228,10 @@ def run_cross_val(tape, stats):
     import verde as vd
 
     ds = gen_dataset(tape)
-    spec = gen_spec(tape, ds.ncomp, allow_nan_models=True)
+    spec = gen_spec(tape, ds.ncomp, allow_nan_models=True, has_w=ds.weights is not None)
     cvspec = draw_cv(tape, ds)
     scoring = gen_scoring(tape)
-    mode = tape.weighted([("delayed_all", 4), ("client", 3), ("delayed_each", 2), ("callers", 2)], "mode")
+    mode = tape.weighted([("delayed_all", 4), ("client", 3), ("delayed_each", 2), ("callers", 2), ("merged", 2), ("shared_fitted", 1)], "mode")
     sample = {"op": "cross_val_score", "data": ds.desc, "estimator": spec, "cv": cvspec, "scoring": scoring, "mode": mode}
     stats["sample"] = sample
     want = model_cross_val(ds, spec, cvspec, scoring)
@@ -313,11 +313,15 @@ def run_cross_val(tape, stats):
                 return out
 
             ok2, got2 = call_verde(compute, must, "client cross_val_score")
+        elif mode == "merged":
+            ok2, got2 = run_merged(tape, stats, ex, ds, spec, cvspec, scoring, est2, args, must)
+        elif mode == "shared_fitted":
+            ok2, got2 = run_shared_fitted(tape, stats, ex, ds, spec)
         else:
             ok2, got2 = run_callers(tape, stats, ex, ds, spec, cvspec, scoring, est2, must)
     finally:
         ex.sched.shutdown()
-    if mode != "callers":
+    if mode not in ("callers", "shared_fitted") and ok2 is not None:
         if ok2:
             if raises:
                 raise Violation(
@@ -333,6 +337,80 @@ def run_cross_val(tape, stats):
             raise Violation("serial-vs-delayed", f"{mode} raised {type(got2).__name__}: {got2} but the serial evaluation returned {list(serial)}")
     check_estimator_untouched(before2, est2, f"{mode} cross_val_score")
     check_arrays(snap, f"{mode} cross_val_score")
+
+
+def run_merged(tape, stats, ex, ds, spec, cvspec, scoring, est2, args, must):
+    """
+    Two lazy cross-validations (the same data, another estimator and scorer) are computed in ONE
+    dask.compute call: their tasks share the argument arrays and interleave freely.
+    """
+    import dask
+    import verde as vd
+
+    spec_b = gen_spec(tape, ds.ncomp, tag="EB")
+    scoring_b = gen_scoring(tape, "scoring_b")
+    want_b = model_cross_val(ds, spec_b, cvspec, scoring_b)
+    stats["sample"]["second"] = {"estimator": spec_b, "scoring": scoring_b}
+    stats["probes"]["merged_graphs"] = 1
+    est_b = build_estimator(spec_b)
+    before_b = estimator_state(est_b)
+    da = vd.cross_val_score(est2, *args, cv=build_cv(cvspec), scoring=build_scoring(scoring), delayed=True)
+    db = vd.cross_val_score(est_b, *args, cv=build_cv(cvspec), scoring=build_scoring(scoring_b), delayed=True)
+    must_b = not isinstance(want_b, Exception) and not any(np.isnan(w) for w in want_b)
+    ok, got = call_verde(lambda: list(dask.compute(*da, *db, scheduler=ex.get)), must and must_b, "merged cross_val_score graphs")
+    check_estimator_untouched(before_b, est_b, "merged cross_val_score graphs")
+    if not ok:
+        # allowed only because one of the two evaluations has no fully defined model; cannot be attributed
+        return None, got
+    ga, gb = got[: len(da)], got[len(da):]
+    if isinstance(want_b, Exception):
+        raise Violation("returned-where-model-raises", f"merged graphs returned {gb!r} but the model raised {type(want_b).__name__}")
+    compare_scores(gb, want_b, "second cross_val_score of a merged graph under schedule")
+    return True, ga
+
+
+def run_shared_fitted(tape, stats, ex, ds, spec):
+    """
+    One FITTED estimator is scored / asked to predict by several caller threads at once:
+    predict and score are read-only, so every caller must get the sequential answer.
+    """
+    est = build_estimator(spec)
+    est.fit(ds.coordinates, ds.data_arg(), ds.weights_arg())
+    ref = build_estimator(spec).fit(ds.coordinates, ds.data_arg(), ds.weights_arg())
+    ncallers = tape.randint(2, 4, "shared.n")
+    tests = [gen_dataset(tape, ncomp=ds.ncomp, tag=f"T{i}") for i in range(ncallers)]
+    stats["probes"]["concurrent_score_on_fitted"] = 1
+    actors = []
+    for i, t in enumerate(tests):
+        what = tape.pick(["score", "predict"], f"shared.{i}.what")
+        if what == "score":
+            body = lambda t=t: est.score(t.coordinates, t.data_arg(), t.weights_arg())  # noqa: E731
+            pred = ref.predict(t.coordinates)
+            pred = pred if isinstance(pred, tuple) else (pred,)
+            want = model_score("r2", t.data, pred, t.weights)
+        else:
+            body = lambda t=t: est.predict(t.coordinates)  # noqa: E731
+            want = ref.predict(t.coordinates)
+        actors.append((ex.sched.spawn(f"caller{i}", body, killable=False), what, want, snapshot_arrays(t)))
+    ex.sched.cfg.workers = max(ex.sched.cfg.workers, ncallers)
+    ex.sched.drain()
+    for i, (a, what, want, snap) in enumerate(actors):
+        if a.state != "done":
+            if isinstance(a.exc, (Violation, HarnessError)):
+                raise a.exc
+            if what == "score" and np.isnan(want):
+                continue
+            raise Violation("unexpected-exception", f"concurrent {what} on a fitted estimator: caller {i} raised {type(a.exc).__name__}: {str(a.exc)[:300]}")
+        if what == "score":
+            if not np.isnan(want) and not close(a.result, want):
+                raise Violation("score-differs-from-model", f"concurrent score on one fitted estimator: caller {i} got {a.result!r}, sequential answer {want!r}")
+        else:
+            g = a.result if isinstance(a.result, tuple) else (a.result,)
+            w = want if isinstance(want, tuple) else (want,)
+            if len(g) != len(w) or not all(np.array_equal(x, y, equal_nan=True) for x, y in zip(g, w)):
+                raise Violation("score-differs-from-model", f"concurrent predict on one fitted estimator: caller {i} differs from the sequential prediction")
+        check_arrays(snap, f"concurrent {what} caller {i}")
+    return True, None
 
 
 def run_callers(tape, stats, ex, ds, spec, cvspec, scoring, shared_est, must):
@@ -474,6 +552,61 @@ def run_splinecv(tape, stats):
     check_arrays(snap, f"SplineCV({mode})")
 
 
+def run_kill_enumeration(tape, stats):
+    """
+    Thorough tier: crash-point enumeration.  One small lazy cross-validation is computed once
+    without faults to count the yield points of all its tasks, then computed again once per
+    yield point k with the worker killed exactly there (the task is retried).  The SAME delayed
+    objects are re-used for every k in shared-memory mode - the user who interrupts a compute
+    and runs it again - so every retry meets whatever the killed attempt left in the clone.
+    """
+    import dask
+    import verde as vd
+
+    ds = gen_dataset(tape, nmax=28)
+    spec = gen_spec(tape, ds.ncomp, has_w=ds.weights is not None)
+    cvspec = draw_cv(tape, ds)
+    scoring = gen_scoring(tape)
+    want = model_cross_val(ds, spec, cvspec, scoring)
+    stats["sample"] = {"op": "kill_enumeration", "data": ds.desc, "estimator": spec, "cv": cvspec, "scoring": scoring}
+    if isinstance(want, Exception) or any(np.isnan(w) for w in want):
+        return
+    snap = snapshot_arrays(ds)
+    args = (ds.coordinates, ds.data_arg(), ds.weights_arg())
+    est = build_estimator(spec)
+    before = estimator_state(est)
+    delayed = vd.cross_val_score(est, *args, cv=build_cv(cvspec), scoring=build_scoring(scoring), delayed=True)
+    ex = SimExecutor(tape, SchedConfig.fixed())
+    stats["ex"] = ex
+    try:
+        got = list(dask.compute(*delayed, scheduler=ex.get))
+    finally:
+        ex.sched.shutdown()
+    compare_scores(got, want, "kill enumeration: fault-free execution")
+    total = ex.sched.yields
+    workers = tape.randint(1, 3, "enum.workers")
+    kills = 0
+    stride = max(1, -(-total // 250))  # every position up to 250 per workload, else an even stride
+    for k in range(1, total + 1, stride):
+        serialize = bool(k % 2) and tape.draw(2, "enum.serialize") == 1
+        cfg = SchedConfig.fixed(workers=workers, p_switch=0.3 if workers > 1 else 0.0, serialize=serialize, kills=[{"mode": "step", "at": k}])
+        exk = SimExecutor(tape, cfg)
+        try:
+            ok, gotk = call_verde(lambda: list(dask.compute(*delayed, scheduler=exk.get)), True, f"kill enumeration: worker killed at yield {k}/{total}")
+        finally:
+            exk.sched.shutdown()
+        kills += exk.sched.fired["kill"]
+        compare_scores(gotk, want, f"kill enumeration: worker killed at yield {k}/{total} (retry on {'fresh copies' if serialize else 'the same objects'})")
+    check_estimator_untouched(before, est, "kill enumeration")
+    check_arrays(snap, "kill enumeration")
+    stats["probes"]["kill_positions_enumerated"] = 1
+    stats["probes"]["kill_positions_total"] = len(range(1, total + 1, stride))
+    stats["probes"]["kill_positions_exhaustive_workloads"] = int(stride == 1)
+    ex.sched.fired["kill"] += kills
+    ex.sched.fired["kill_step"] += kills
+    ex.fired["retry"] += kills
+
+
 def run_score(tape, stats):
     import verde as vd  # noqa: F401
 
@@ -591,9 +724,13 @@ def run(tape, opts=None):
     np.random.seed(tape.draw(1 << 31, "global_rng"))
     stats = {"probes": {}, "sample": None, "ex": None}
     op = tape.weighted([("cvs", 6), ("splinecv", 3), ("score", 1), ("tts", 1)], "op")
+    if (opts or {}).get("tier") == "thorough" and tape.coin(0.04, "kill_enum"):
+        op = "kill_enum"
     try:
         with patched_dask_uuid():
-            if op == "cvs":
+            if op == "kill_enum":
+                run_kill_enumeration(tape, stats)
+            elif op == "cvs":
                 run_cross_val(tape, stats)
             elif op == "splinecv":
                 run_splinecv(tape, stats)
